@@ -341,8 +341,46 @@ def step_level(ctx):
     return first
 
 
+def update_level(ctx):
+    """the whole `TDGLSolver.update` started from an ARBITRARY state (as a seeded run, a second solve() of the same
+    solver or a direct call does): the psi it returns solves the site equation built from the state it was given --
+    in particular from |psi^n|^2 of that state, whatever an earlier call left behind in the solver"""
+    import zoo
+    import runs
+    from tdgl.solver.runner import RunningState
+
+    rng = ctx.rng
+    first = None
+    dev = zoo.make_device("bar_hole", rng, max_edge_length=1.0, gamma=float(rng.choice([1.0, 3.0, 10.0])))
+    dt = 2e-3
+    opts = runs.options(adaptive=False, dt_init=dt, terminal_psi=None)
+    ref = runs.Reference(dev, opts, 2, applied_vector_potential=0.4, terminal_currents={"source": 2.0, "drain": -2.0})  # two ordinary steps first
+    solver = ref.solver
+    n, E = len(dev.mesh.sites), solver.num_edges
+    for rep in range(4 if ctx.quick else 30):
+        amp = float(rng.choice([0.3, 0.7, 1.2]))
+        psi = amp * (rng.normal(size=n) + 1j * rng.normal(size=n)) / np.sqrt(2)
+        mu = rng.normal(size=n) * rng.choice([0.0, 1.0])
+        res = solver.update({"step": 5 + rep, "time": 0.1, "dt": dt}, ref.rs, dt, psi=psi.copy(), mu=mu.copy(), supercurrent=np.zeros(E), normal_current=np.zeros(E),
+                            induced_vector_potential=np.zeros((E, 2)))
+        dt_out, psi2 = float(res[0]), np.asarray(res[1])
+        v = dict(psi=psi, abs_sq=np.abs(psi) ** 2, mu=mu, eps=np.asarray(solver.epsilon) * np.ones(n), gamma=solver.gamma, u=solver.u, dt=dt_out, M=solver.operators.psi_laplacian)
+        z, w, b, disc, az2, aw2 = oracle_zw(v)
+        bad = check_answer(v, (psi2, np.abs(psi2) ** 2), np.arange(n), z, w, b, disc, az2, aw2)
+        ctx.case(("update-from-arbitrary-state", rep, amp), nontrivial=True)
+        ctx.count("update_level_calls")
+        if bad:
+            i, what = bad[0]
+            rp = dict(call=rep, amplitude=amp, site=int(i), detail=what)
+            ctx.fail("update:answer-does-not-solve-for-given-state", f"TDGLSolver.update called with a state of amplitude {amp} returns psi' that does not solve the site equation built from that state: {what}", rp)
+            first = first or dict(key="update:answer-does-not-solve-for-given-state", what=what, **rp)
+            break
+    return first
+
+
 def run(ctx):
     step_level(ctx)
+    update_level(ctx)
     nvec = 40 if ctx.quick else 1500
     n = 256 if ctx.quick else 512
     for v in boundary_vectors(ctx.rng, n):
